@@ -5,6 +5,7 @@ open Proto Grid
 
 /-  requests (floats as IEEE bit patterns, `-` = empty list, `ERR` = Python exception):
       mk     <g0> <delta> <dec>                 -> <lb> <delta>
+      ctor   <g0> <delta> <dec:int>             -> <lb> <delta> | ERR   (argument checks of __init__)
       round  <lb> <delta> <dec> <v>             -> <lower> <upper> <nearest> <kLower> <kNearest> <gp kLower> <gp kUpper> <gp kNearest>
       rounds <lb> <delta> <dec> <vs>            -> the same eight answers as lists
       grid   <g0> <delta> <dec> <arr>           -> <lb> <delta> <grid>
@@ -50,6 +51,10 @@ def answer (line : String) : String :=
   | ["mk", g0, d, dec] =>
       let G := mkGrid (pF g0) (pF d) (pN dec) Gen.C15.floatDDecimals
       s!"{fF G.lb} {fF G.delta}"
+  | ["ctor", g0, d, dec] =>
+      match mkGridChecked (pF g0) (pF d) (pI dec) Gen.C15.floatDDecimals Gen.C15.maxDecimals with
+      | some G => s!"{fF G.lb} {fF G.delta}"
+      | none => "ERR"
   | ["round", lb, d, dec, v] =>
       let G := pG lb d dec
       let x := pF v
